@@ -1,12 +1,15 @@
 import RzmqModel.Driver.Wire
 import RzmqModel.Driver.Engine
+import RzmqModel.Driver.Stack
 open Rzmq.Driver
 
 structure DState where
   eng : Engine.St := {}
 
 def dispatch (comp : String) (st : DState) (parts : List String) : DState × String :=
+  if parts.head? == some "note" then (st, "note") else
   match comp with
+  | "stack" => (st, Stack.runOp parts)
   | "wire" => (st, Wire.runOp parts)
   | "engine" => let r := Engine.runOp st.eng parts; ({ st with eng := r.1 }, r.2)
   | _ => (st, "bad-component")
